@@ -318,7 +318,7 @@ func genbankReferenceParser(gb *GenBank, depth int) pars.Parser {
 
 		ref := Reference{Number: result.Value.(int)}
 
-		paddingLength := 3 - len(strconv.Itoa(ref.Number))
+		paddingLength := gts.Max(0, 3-len(strconv.Itoa(ref.Number)))
 		paddingParser := pars.String(strings.Repeat(" ", paddingLength))
 		paddingParser(state, pars.Void)
 		pars.Line(state, result)
